@@ -52,7 +52,7 @@ def canon(v):
     if isinstance(v, bool):
         return ('b', v)
     if isinstance(v, (int, float)):
-        return ('n', float(v))
+        return ('n', v if (isinstance(v, int) and abs(v) >= 2 ** 53) else float(v))
     if isinstance(v, datetime.datetime):
         return ('d', v.isoformat())
     if isinstance(v, tuple):
@@ -317,6 +317,8 @@ def keycell(rng, kind):
         return rng.choice([1, 2.0, {'$nan': rng.randrange(1000)}, {'$nan': 'np'}, {'$nan': rng.randrange(3)}])
     if kind == 'none':
         return rng.choice([None, 1, 'x'])
+    if kind == 'bigint':
+        return rng.choice([2 ** 53, 2 ** 53 + 1, 2 ** 53 + 2, float(2 ** 53), 5, 1577836800000000000, 1577836800000000001])     # distinct ids / epoch-ns stamps that round to one double
     if kind == 'dt':
         return rng.choice([{'$dt': '2020-01-01T00:00:00'}, {'$dt': '2020-01-02T00:00:00'}, None])
     if kind == 'mixed':
@@ -326,7 +328,7 @@ def keycell(rng, kind):
 
 def gen_case(rng, maxrows):
     nk = rng.choice([0, 1, 1, 1, 2, 2, 3])
-    kinds = [rng.choice(['int', 'str', 'num', 'nan', 'none', 'dt', 'mixed', 'mixed']) for _ in range(nk)]
+    kinds = [rng.choice(['int', 'str', 'num', 'nan', 'none', 'dt', 'mixed', 'mixed', 'bigint']) for _ in range(nk)]
     nl = rng.choice([0, 1, 2, 3, 4, 5, 6, maxrows])
     nr = rng.choice([0, 1, 2, 3, 4, 5, 6, maxrows])
     style = rng.choice(['implicit', 'same', 'same', 'diff', 'diff', 'lfun', 'rfun'])
